@@ -1302,7 +1302,11 @@ class C11(Spec):
                   'C11_simple_invocation / C11_invocation_equals_substitution / C11_invocation_match (in text with no other brace or backslash the '
                   'invocation {name} of a defined macro is replaced by its value and the inline entry point renders it exactly as the text with '
                   'the value written in its place, for every prefix, suffix, name, value, fuel and expansion with macros on: through the exact '
-                  'regex semantics and the completeness of the matcher), C11_undefined_left_as_written. Parametrised, inclusion / exclusion and line-leading invocations, and '
+                  'regex semantics and the completeness of the matcher), C11_undefined_left_as_written, C11_define_then_invoke (after setValue every '
+                  'simple invocation of the name yields exactly that value), C11_definition_line / C11_definition_match (end to end through the '
+                  'block layer: a first line {name}=QvalueQ renders nothing and the rest of any document is rendered in the session setValue '
+                  'produced, for every name, value without newline, brace or backslash, rest, session and fuel; the five earlier line-block '
+                  'patterns are shown not to apply and the definition pattern has one derivation). Parametrised, inclusion / exclusion and line-leading invocations, and '
                   'invocation = substitution on whole documents, are decided by the hand-substitution oracle and correspondence.')
     rule = ('documents with 1-4 macro definitions (single/multi-line, values referring to earlier macros, redefinitions, existential) and '
             'invocations of every form at line start and mid-line in paragraphs, headers, list items; rendered against the hand-substituted '
